@@ -378,7 +378,7 @@ Definition cmp_ok (l : aexp) (o : oper) (r : aexp) : Prop :=
   match l with
   | AField p => rhs_ok r
   | _ => lhs_simple l = true /\ wf l = true /\ atoms_ok l /\ is_cmp6 o = true /\ wf r = true /\ atoms_ok r /\ ctest_rhs_ok r
-         /\ nocmp (pr l) = true /\ nocmp (pr r) = true
+         /\ nocmp (pr l) = true /\ nocmp (pr r) = true /\ balq (pr l) = true
   end.
 
 Fixpoint cond_ok (c : scond) : Prop :=
@@ -641,7 +641,7 @@ Definition ctest_rhs_okb (r : aexp) : bool :=
 Definition cmp_okb (l : aexp) (o : oper) (r : aexp) : bool :=
   match l with
   | AField p => rhs_okb r
-  | _ => lhs_simple l && wf l && atoms_okb l && is_cmp6 o && wf r && atoms_okb r && ctest_rhs_okb r && nocmp (pr l) && nocmp (pr r)
+  | _ => lhs_simple l && wf l && atoms_okb l && is_cmp6 o && wf r && atoms_okb r && ctest_rhs_okb r && nocmp (pr l) && nocmp (pr r) && balq (pr l)
   end.
 Fixpoint cond_okb (c : scond) : bool :=
   match c with
@@ -664,9 +664,8 @@ Definition deref_hit (rs : list srule) (states : list facts) : bool :=
   existsb (fun r => existsb (fun s => existsb (fun f => match get_nested f s, fget f s with None, None => false | _, _ => true end) states)
                             (strlit_rhs (sr_cond r))) rs.
 
-(** the known finding C01-comparison-operator-in-string-of-arithmetic-condition: an arithmetic / concatenation condition is kept as
-    the text "lhs op rhs" and split again by evaluate_arithmetic_condition with rfind over the comparison operators, string literals
-    included *)
+(** string literals of arithmetic / concatenation conditions (such a condition is kept as the text "lhs op rhs" and split again by
+    evaluate_arithmetic_condition; repaired: the operator is looked for outside string literals) *)
 Fixpoint lit_strs (l : lit) : list str :=
   match l with LStr s => [s] | LArr ls => (fix go (ls : list lit) : list str := match ls with [] => [] | x :: r => lit_strs x ++ go r end) ls | _ => [] end.
 Fixpoint aexp_strs (e : aexp) : list str :=
@@ -683,8 +682,7 @@ Definition cmp_strlit_hit (rs : list srule) : bool := existsb (fun r => existsb 
 (** monitor: 1 = the observation is what the documented semantics prescribes and the case lies within the
     hypotheses of the run theorem; -2 = the same, but the case is outside those hypotheses (monitored only);
     -1 = the documented semantics leaves this run undefined (outside the property's quantifier);
-    0 = violation; 2 = violation of the known class C01-string-literal-names-a-fact; 3 = violation of the known class
-    C01-comparison-operator-in-string-of-arithmetic-condition *)
+    0 = violation; 2 = violation of the known class C01-string-literal-names-a-fact *)
 Definition ok_sx (c o : sx) : Z :=
   match dec_case c, o with
   | Some (rs, f), L [parsed; log; res; fin] =>
@@ -696,7 +694,7 @@ Definition ok_sx (c o : sx) : Z :=
                | Some (st, k, n) =>
                    if sx_eqb (enc_run (Some (st, k, n))) (L [log; res; fin])
                    then (if forallb rule_okb rs && negb (is_none (run_rules (sem_step true) (sorted_spec rs) f)) then 1 else -2)
-                   else if deref_hit rs (f :: map snd (l_log st)) then 2 else if cmp_strlit_hit rs then 3 else 0
+                   else if deref_hit rs (f :: map snd (l_log st)) then 2 else 0
                end
       | None => 0 end
   | _, _ => 0
